@@ -1914,6 +1914,10 @@ impl Connection {
         if buf.remaining() >= 16 + 2 {
             buf.set_position(16);
             let len = buf.get_u16();
+            if len < 19 {
+                // shorter than the BGP header itself
+                return Err(ParseError::form_error("invalid length"));
+            }
             if buf.remaining() >= ((len as usize) - 18) {
                 //return Ok(len)
                 buf.set_position(0);
